@@ -50,7 +50,9 @@ def _wrap(sig, mode):
         if isinstance(sig, list) and mode:
             return [bytearray(x) if mode == 1 else memoryview(x) for x in sig]
         return sig
-    return bytearray(sig) if mode == 1 else memoryview(sig)
+    if mode == 1:
+        return bytearray(sig)
+    return memoryview(sig) if len(sig) % 2 else memoryview(bytearray(sig)).cast("b")
 
 
 def check_case(ctx, case, enum=False, cls_hint=None):
